@@ -445,6 +445,12 @@ func checkC02(c *Ctx, w *World) {
 			}
 		}
 	}
+	// ---- premise checked by sibling properties, re-evaluated here: "the channel was READY when the picker was published"
+	// is stated over the recorded state of each connection — the record must follow the connection's reports, also after a
+	// refresh (C04.pair; the replacement registry is cleared at the swap, C04.refresh-complete ← C07.swap), or a channel
+	// that left READY stays in every later snapshot
+	importPremises(c, w, "C04", checkC04, []string{"C04.pair", "C04.refresh-complete"}, "C02.states")
+
 }
 
 func isExtractOf(v ssa.Value, tuple ssa.Value, idx int) bool {
